@@ -255,9 +255,14 @@ func (s *State) rangeOfD(e *Expr, depth int) ISet {
 			}
 		case ">>":
 			if c, ok := ry.IsConst(); ok && c >= 0 && c < 63 && !rx.Empty() && rx.Lo() >= 0 {
-				v = isRange(rx.Lo()>>uint(c), rx.Hi()>>uint(c))
-				if rx.Hi() == posInf {
-					v = isRange(rx.Lo()>>uint(c), posInf)
+				// interval by interval (the shift is monotone)
+				v = isEmpty()
+				for _, iv := range rx {
+					hi := iv.Hi
+					if hi != posInf {
+						hi = hi >> uint(c)
+					}
+					v = v.Union(isRange(iv.Lo>>uint(c), hi))
 				}
 			} else {
 				v = isTop()
@@ -318,6 +323,20 @@ func (s *State) rangeOfD(e *Expr, depth int) ISet {
 		v := s.evalBoolD(e, depth+1)
 		r = r.Intersect(v)
 	case "call":
+		// library summary: IsMulticast of the IPv4 address made of the
+		// big-endian octets of x is "x in 224.0.0.0/4"
+		if e.S == "netip.Addr.IsMulticast" && len(e.Args) == 1 && isCallNamed(e.Args[0], "netip.AddrFrom4") && len(e.Args[0].Args) == 1 {
+			if by := e.Args[0].Args[0]; by.Op == "bytes" && by.S == "be32" && len(by.Args) == 1 {
+				rx := s.rangeOfD(by.Args[0], depth+1)
+				mc := isRange(0xE0000000, 0xEFFFFFFF)
+				switch {
+				case !rx.Empty() && rx.SubsetOf(mc):
+					r = r.Intersect(isConst(1))
+				case rx.Intersect(mc).Empty():
+					r = r.Intersect(isConst(0))
+				}
+			}
+		}
 		if e.S == "min" && len(e.Args) == 2 {
 			a, b := s.rangeOfD(e.Args[0], depth+1), s.rangeOfD(e.Args[1], depth+1)
 			if !a.Empty() && !b.Empty() {
